@@ -11,6 +11,8 @@ ID = "C03"
 from genf import translate  # noqa: E402,F401  (regenerates lean/PyribsGen/Formulas.lean from the tree under check)
 PROOF_MODULES = ["PyribsProofs.C03", "PyribsGen.Formulas", "PyribsProofs.GenF"]
 THEOREMS = [
+    "Pyribs.GenFProofs.sliding_clip_from_source",
+    "Pyribs.GenFProofs.sliding_coord_from_source",
     "Pyribs.GenFProofs.grid_quot_matches",
     "Pyribs.GenFProofs.grid_coord_from_source",
     "Pyribs.C03.grid_range",
